@@ -64,7 +64,9 @@ structure Sess where
   cw : Option Writer := none
   reqSalt : Bytes := []
   sw : Option SWriter := none
-  sr : Option Reader := none
+  sr : Option SReader := none
+  /-- the request `HandleStream` returned (address, user) -/
+  req : Option (Addr × String) := none
   cr : Option CReader := none
 
 abbrev St := Array Sess
@@ -150,22 +152,26 @@ def stepSess (all : St) (s : Sess) : List String → Option (Sess × String)
     let w := s.c2s.flatten
     match handle C s.scfg now [w.take first, w.drop first] with
     | .request req r salt upsk =>
-      some ({ s with sr := some r, sw := some ⟨upsk, s.scfg.respPrefix, salt, none⟩ },
+      some ({ s with sr := some ⟨r, none⟩, req := some (req.addr, req.user), sw := some ⟨upsk, s.scfg.respPrefix, salt, none⟩ },
         s!"request {toHexField (encodeAddr req.addr)} {if req.user.isEmpty then "-" else req.user} {sum req.payload}")
     | .fallback p => some (s, s!"fallback {sum p}")
     | .error e => some (s, s!"error {e.name}")
   | ["sread", n] => do
     let n ← n.toNat?; let r ← s.sr
-    let (o, r') := r.read C n
+    let (o, r') := r.step C (.read n)
     some ({ s with sr := some r' }, showOut o)
   | ["swriteto"] => do
     let r ← s.sr
-    let (o, r') := r.writeTo C
+    let (o, r') := r.step C .writeTo
     some ({ s with sr := some r' }, showOut o)
   | ["stunnel"] => do
     let r ← s.sr
-    let (o, r') := r.tunnel C
+    let (o, r') := r.step C .tunnel
     some ({ s with sr := some r' }, showOut o)
+  | ["reqcheck"] => do
+    let (a, u) ← s.req
+    -- what the holder of the request sees now: the bytes the request was parsed from have been overwritten
+    some (s, s!"request {toHexField (encodeAddr (addrSeenLater a (List.replicate 300 0xAA)))} {if u.isEmpty then "-" else u}")
   | ["swrite", d, salt, ts, capW, capBig] => do
     let d ← parseData d; let ch ← parseResp salt ts capW capBig; let w ← s.sw
     let (segs, w') := w.write C ch d
@@ -176,21 +182,28 @@ def stepSess (all : St) (s : Sess) : List String → Option (Sess × String)
     let (segs, w') := w.readFrom C ch (cutBy sizes d)
     some ({ s with s2c := s.s2c ++ segs, sw := some w' },
       s!"{if CapsOk w.respPrefix.length w.psk.length ch then "ok" else "bad-choice"} segs {sums segs}")
+  | ["cseg", first, u] => do
+    -- first segment of `first` bytes, the rest in segments of `u` bytes (for reads repeated after a failed first read)
+    let first ← first.toNat?; let u ← u.toNat?
+    let w := s.s2c.flatten
+    let rest := w.drop first
+    let segs := if u = 0 then [rest] else cutBy (List.replicate (rest.length / u) u) rest
+    some ({ s with cr := some ⟨s.ccfg.psk, s.ccfg.respPrefix, s.reqSalt, s.ccfg.allowSeg, w.take first :: segs, none, none⟩ }, "ok")
   | ["cseg", first] => do
     let first ← first.toNat?
     let w := s.s2c.flatten
-    some ({ s with cr := some ⟨s.ccfg.psk, s.ccfg.respPrefix, s.reqSalt, s.ccfg.allowSeg, [w.take first, w.drop first], none⟩ }, "ok")
+    some ({ s with cr := some ⟨s.ccfg.psk, s.ccfg.respPrefix, s.reqSalt, s.ccfg.allowSeg, [w.take first, w.drop first], none, none⟩ }, "ok")
   | ["cread", now, n] => do
     let now ← now.toInt?; let n ← n.toNat?; let c ← s.cr
-    let (o, c') := c.read C now n
+    let (o, c') := c.readS C now n
     some ({ s with cr := some c' }, showOut o)
   | ["cwriteto", now] => do
     let now ← now.toInt?; let c ← s.cr
-    let (o, c') := c.writeTo C now
+    let (o, c') := c.writeToS C now
     some ({ s with cr := some c' }, showOut o)
   | ["ctunnel", now, started] => do
     let now ← now.toInt?; let st ← parseBool started; let c ← s.cr
-    let (o, c') := c.tunnel C now st
+    let (o, c') := c.tunnelS C now st
     some ({ s with cr := some c' }, showOut o)
   | "tamper" :: dir :: other :: odir :: op => do
     let oi ← other.toNat?
